@@ -200,7 +200,7 @@ def run(ops, K=2, needs_hist=(2,), chains=2, seed=0, J=1, init_cfgs=(), included
     if not crashed:
         allkeys += [k for c in range(chains) for k in results_ev[c].get("qkeys", [])]
     for c in range(chains):
-        ev = evs[c] + [dict(results_ev[c], allkeys=allkeys if c == 0 else [])]
+        ev = evs[c] + [dict(results_ev[c], allkeys=allkeys if c == 0 else [], keys_underived=_underived(allkeys))]
         hdr = {"K": K, "J": J, "needs": sorted(needs_hist), "chain": c, "init": list(init_cfgs),
                "kernel_keys": keys, "included": list(included), "excluded": list(excluded), "nq": nq,
                "via_builder": via_builder, "seed": seed, "lenient": False,
@@ -220,6 +220,27 @@ def _uniform_tag(arr):
     if a.size == 0 or not np.all(a == a[0]):
         return [-9, -9, -9]
     return decode(a[0])
+
+
+_UNDERIVED_CACHE = {}
+
+
+def _underived(allkeys):
+    """No key handed to a kernel / generator call is a split child of a key handed to another call (a kernel uses
+    the children of its key for its own randomness)."""
+    sig = hash(tuple(allkeys))
+    if sig not in _UNDERIVED_CACHE:
+        ks = sorted(set(allkeys))
+        arr = jnp.asarray([[int(x) for x in k.split(":")] for k in ks], jnp.uint32)
+        have = set(ks)
+        ok = True
+        for n in (2, 3, 4):
+            ch = np.asarray(jax.vmap(lambda k: jax.random.split(k, n))(arr)).reshape(-1, 2)
+            if have & {f"{int(a)}:{int(b)}" for a, b in ch}:
+                ok = False
+        _UNDERIVED_CACHE.clear()
+        _UNDERIVED_CACHE[sig] = ok
+    return _UNDERIVED_CACHE[sig]
 
 
 def results_event(res, eng, keys, K, chains, included, excluded, store_kernel_states, nq=0):
